@@ -235,7 +235,11 @@ class Group:
 
             def kill(gw: Gateway) -> None:
                 trace("Gateways did not come down after timeout: %r" % gw)
-                gw._io.kill()
+                try:
+                    gw._io.kill()
+                except (OSError, EOFError) as exc:
+                    # e.g. a proxied gateway whose via gateway is already gone
+                    trace("could not kill %r: %r" % (gw, exc))
 
             safe_terminate(
                 self.execmodel,
